@@ -52,7 +52,7 @@ def body_wiring(umn: bool, root: bool, v0: bool, v1: bool, v2: bool, v3: bool, p
 
     def search(pattern, string, flags=0):
         calls.append((pattern, string))
-        key = string.rsplit("/", 1)[1]
+        key = string.rsplit("/", 1)[-1]
         return verdicts.get(key, False)
 
     real_re = dirmod.re
@@ -84,15 +84,15 @@ def body_wiring(umn: bool, root: bool, v0: bool, v1: bool, v2: bool, v3: bool, p
 
 # ------------------------------------------------------------------ C07.2 order independence
 
-POOL2 = [".Links", ".names", "a.txt", "b.txt", "zdir"]
+POOL2 = [".Links", ".names", "a.txt", "b.txt", "zdir", "hid"]
 LINKS = b"Name=From Links\nPath=./a.txt\nNumb=2\n\nName=Remote\nType=1\nPath=/r1\nHost=h.example\nPort=70\nNumb=1\n"
-NAMESF = b"Name=From names\nPath=./a.txt\nAbstract=abs from names\n\nName=Bee\nPath=./b.txt\nNumb=-1\n"
+NAMESF = b"Name=From names\nPath=./a.txt\nAbstract=abs from names\n\nName=Bee\nPath=./b.txt\nNumb=-1\n\nType=X\nPath=./hid/\n"
 
 
 def _nodes2(order):
     names = [POOL2[i] for i in order]
     nodes = {"/": mv.Dir(["d"]), "/d": mv.Dir(names), "/d/.Links": mv.File(LINKS), "/d/.names": mv.File(NAMESF),
-             "/d/a.txt": mv.File(b"a\n"), "/d/b.txt": mv.File(b"b\n"), "/d/zdir": mv.Dir([])}
+             "/d/a.txt": mv.File(b"a\n"), "/d/b.txt": mv.File(b"b\n"), "/d/zdir": mv.Dir([]), "/d/hid": mv.Dir([])}
     return nodes
 
 
@@ -111,13 +111,13 @@ def _listing2(umn, order):
         dl.restore_dir_env()
 
 
-REF2 = {u: _listing2(u, [0, 1, 2, 3, 4]) for u in (False, True)}
+REF2 = {u: _listing2(u, [0, 1, 2, 3, 4, 5]) for u in (False, True)}
 
 
-def body_order(umn: bool, i0: int, i1: int, i2: int, i3: int) -> bool:
-    rest = [0, 1, 2, 3, 4]
+def body_order(umn: bool, i0: int, i1: int, i2: int, i3: int, i4: int) -> bool:
+    rest = [0, 1, 2, 3, 4, 5]
     order = []
-    for i in (i0, i1, i2, i3):
+    for i in (i0, i1, i2, i3, i4):
         order.append(rest.pop(i))
     order.append(rest[0])
     got = _listing2(umn, order)
@@ -126,6 +126,10 @@ def body_order(umn: bool, i0: int, i1: int, i2: int, i3: int) -> bool:
                lambda: "%s order=%r: %r vs sorted-order listing %r" % ("UMN" if umn else "Dir", [POOL2[i] for i in order], got, REF2[umn]))
     sels = [g[2] for g in got]
     hx.require(len(sels) == len(set(sels)), "C07:entry-listed-twice", lambda: repr(sels))
+    if umn:
+        # documented: a Type=X block hides the entry it names (also when the Path is written with a trailing slash)
+        hx.require("/d/hid" not in sels and "/d/hid/" not in sels, "C07:entry-hidden-by-metadata-is-listed", lambda: repr(sels))
+        hx.require(sorted(sels) == sorted(["/r1", "/d/a.txt", "/d/b.txt", "/d/zdir"]), "C07:listing-not-exactly-visible-entries", lambda: repr(sels))
     return True
 
 
@@ -202,12 +206,12 @@ def obligations(tier, seed):
                           bounds="pool %r, symbolic verdict per name, 4 enumeration orders, %s" % (POOL1, "server root" if root else "sub-directory"),
                           functions=["handlers.dir.DirHandler.prep_initfiles/prep_initfiles_canaddfile", "handlers.UMN.UMNDirHandler.prep_initfiles_canaddfile"]))
     for umn in (True, False):
-        for i0 in range(5):
-            obs.append(Ob(id="C07.2-order[%s,first=%s]" % ("UMN" if umn else "Dir", POOL2[i0]), body="harness.C07:body_order", sig="umn: bool, i0: int, i1: int, i2: int, i3: int",
-                          pre=["umn == %s" % umn, "i0 == %d" % i0, "0 <= i1 <= 3", "0 <= i2 <= 2", "0 <= i3 <= 1"], timeout=240,
-                          desc="listing of a directory with two link files overriding the same entry, a numbered remote link, a negative number and a sub-directory is identical "
+        for i0 in range(6):
+            obs.append(Ob(id="C07.2-order[%s,first=%s]" % ("UMN" if umn else "Dir", POOL2[i0]), body="harness.C07:body_order", sig="umn: bool, i0: int, i1: int, i2: int, i3: int, i4: int",
+                          pre=["umn == %s" % umn, "i0 == %d" % i0, "0 <= i1 <= 4", "0 <= i2 <= 3", "0 <= i3 <= 2", "0 <= i4 <= 1"] + (["i1 <= 1", "i2 <= 1"] if tier == "quick" else []), timeout=300 if tier == "quick" else 1200,
+                          desc="listing of a directory with two link files overriding the same entry, a numbered remote link, a negative number, a sub-directory and a directory hidden by Type=X is identical "
                                "for every enumeration order starting with %s" % POOL2[i0],
-                          bounds="pool %r, all 24 orders with this first element (symbolic Lehmer indices: solver-driven exhaustive enumeration of 120 orders overall)" % (POOL2,),
+                          bounds="pool %r, orders with this first element (symbolic Lehmer indices: solver-driven enumeration; thorough = all 720 orders, quick = 24 of each 120)" % (POOL2,),
                           functions=["handlers.dir.DirHandler.prepare", "handlers.UMN.UMNDirHandler.prepare/MergeLinkFiles/entrycmp/processLinkFile"]))
     obs.append(Ob(id="C07.3-entrycmp", body="harness.C07:body_entrycmp", sig="n1: int, n2: int, n3: int, s1: str, s2: str, s3: str",
                   pre=["len(s1) <= 2", "len(s2) <= 2", "len(s3) <= 2"], timeout=180,
